@@ -623,6 +623,19 @@ both!(chol_indef, chol_indef_t, 0.3);
 both!(svd, svd_t, 0.3);
 both!(svd_rankdef, svd_rankdef_t, 0.3);
 
+/// the six families on orders 41..140 (beyond the ordinary bound of 40)
+fn large(c: &mut Case) {
+    let g = c.index % 6;
+    scverif::with_big(1, || match g {
+        0 => lu(c),
+        1 => qr(c),
+        2 => chol(c),
+        3 => chol_indef(c),
+        4 => svd(c),
+        _ => svd_rankdef(c),
+    })
+}
+
 fn main() {
     runner::main(Spec {
         property: "C01",
@@ -639,6 +652,7 @@ fn main() {
             Family::new("chol_indef", 1500, 30000, chol_indef),
             Family::new("svd", 3500, 70000, svd),
             Family::new("svd_rankdef", 1500, 30000, svd_rankdef),
+            Family::new("large", 120, 2400, large),
         ],
         min_nontrivial: 2000,
         case_timeout_s: 120,
